@@ -731,6 +731,7 @@ func guardAtoms(r *Resolver, ins ssa.Instruction) []GAtom {
 		a := atomsOf(g)
 		out = append(out, mkGAtom(r, a))
 		out = append(out, expandPredicate(r, a, 0)...)
+		out = append(out, expandTable(r, a)...)
 	}
 	return out
 }
@@ -788,6 +789,101 @@ func (w *LockWalker) ctxGuards() []GAtom {
 	var out []GAtom
 	for _, g := range w.gstack {
 		out = append(out, g...)
+	}
+	return out
+}
+
+
+// expandTable: a guard comparing an entry of a read-only package-level
+// table with a constant, table[k] == C (or a presence test), implies a
+// condition on the key: when exactly one key maps to C, k == that key; when
+// the guard excludes C, k differs from every key mapping to C. The implied
+// conditions are synthesised as atoms over the key's origin.
+func expandTable(r *Resolver, a Atom) []GAtom {
+	// a boolean table entry used as the condition itself: table[k] (== true)
+	if l, isLk := strip(a.V).(*ssa.Lookup); isLk && !l.CommaOk {
+		if bt, isB := l.Type().Underlying().(*types.Basic); isB && bt.Kind() == types.Bool {
+			if ld, ok := l.X.(*ssa.UnOp); ok {
+				if g, ok := ld.X.(*ssa.Global); ok {
+					if keys, vals, ok := readOnlyTable(g); ok {
+						ko := r.Of(l.Index)
+						var out []GAtom
+						var trues []*ssa.Const
+						for i := range keys {
+							if vals[i].Value != nil && vals[i].Value.ExactString() == "true" {
+								trues = append(trues, keys[i])
+							}
+						}
+						if a.Pos && len(trues) == 1 {
+							out = append(out, GAtom{Pos: true, V: a.V, Op: "==", X: ko, Y: r.Of(trues[0]), R: r})
+						}
+						if !a.Pos {
+							for _, k := range trues {
+								out = append(out, GAtom{Pos: false, V: a.V, Op: "==", X: ko, Y: r.Of(k), R: r})
+							}
+						}
+						return out
+					}
+				}
+			}
+		}
+		return nil
+	}
+	b, ok := a.V.(*ssa.BinOp)
+	if !ok || (b.Op != token.EQL && b.Op != token.NEQ) {
+		return nil
+	}
+	var lk *ssa.Lookup
+	var cst *ssa.Const
+	pick := func(x, y ssa.Value) {
+		if l, ok := strip(x).(*ssa.Lookup); ok {
+			if k, ok := y.(*ssa.Const); ok {
+				lk, cst = l, k
+			}
+		}
+	}
+	pick(b.X, b.Y)
+	if lk == nil {
+		pick(b.Y, b.X)
+	}
+	if lk == nil || cst == nil || cst.Value == nil {
+		return nil
+	}
+	ld, ok := lk.X.(*ssa.UnOp)
+	if !ok {
+		return nil
+	}
+	g, ok := ld.X.(*ssa.Global)
+	if !ok {
+		return nil
+	}
+	keys, vals, ok := readOnlyTable(g)
+	if !ok {
+		return nil
+	}
+	eq := (b.Op == token.EQL) == a.Pos
+	var match []*ssa.Const
+	for i := range keys {
+		if vals[i].Value != nil && vals[i].Value.ExactString() == cst.Value.ExactString() {
+			match = append(match, keys[i])
+		}
+	}
+	ko := r.Of(lk.Index)
+	var out []GAtom
+	mk := func(k *ssa.Const, pos bool) GAtom {
+		return GAtom{Pos: pos, V: a.V, Op: "==", X: ko, Y: r.Of(k), R: r}
+	}
+	if eq {
+		// the zero value may also equal C when the key is missing: only
+		// decidable when C is not the zero value
+		zero := cst.Value.ExactString() == "0" || cst.Value.ExactString() == "\"\"" || cst.Value.ExactString() == "false"
+		if len(match) == 1 && !zero {
+			out = append(out, mk(match[0], true))
+		}
+	} else {
+		for _, k := range match {
+			out = append(out, mk(k, false))
+		}
 	}
 	return out
 }
